@@ -15,6 +15,7 @@ package sqlx
 import (
 	"context"
 	"database/sql"
+	"database/sql/driver"
 	"errors"
 	"fmt"
 	"os"
@@ -75,6 +76,49 @@ func verifDerr(class, code int64) error {
 	return verifOther
 }
 
+// A connector in front of the sqlmock driver connection that calls `after` when the driver's
+// ExecContext / QueryContext / PrepareContext has produced its answer and before database/sql
+// sees it: the place where a call's context becomes done "while the statement runs" without
+// changing what the driver answers (database/sql hands a driver error through unchanged).
+type verifConnector struct {
+	drv   driver.Driver
+	dsn   string
+	after func()
+}
+
+func (c verifConnector) Connect(context.Context) (driver.Conn, error) {
+	cn, err := c.drv.Open(c.dsn)
+	if err != nil {
+		return nil, err
+	}
+	return &verifConn{Conn: cn, after: c.after}, nil
+}
+
+func (c verifConnector) Driver() driver.Driver { return c.drv }
+
+type verifConn struct {
+	driver.Conn
+	after func()
+}
+
+func (c *verifConn) ExecContext(ctx context.Context, q string, args []driver.NamedValue) (driver.Result, error) {
+	r, err := c.Conn.(driver.ExecerContext).ExecContext(ctx, q, args)
+	c.after()
+	return r, err
+}
+
+func (c *verifConn) QueryContext(ctx context.Context, q string, args []driver.NamedValue) (driver.Rows, error) {
+	r, err := c.Conn.(driver.QueryerContext).QueryContext(ctx, q, args)
+	c.after()
+	return r, err
+}
+
+func (c *verifConn) PrepareContext(ctx context.Context, q string) (driver.Stmt, error) {
+	r, err := c.Conn.(driver.ConnPrepareContext).PrepareContext(ctx, q)
+	c.after()
+	return r, err
+}
+
 func verifSqlOpts(n int64) []SqlOption {
 	var opts []SqlOption
 	if n >= 1 {
@@ -100,12 +144,11 @@ func TestVerifC01W(t *testing.T) {
 	}
 	defer w.Close()
 	timex.SetFakeNow(time.Duration(1e15))
-	cancelled, cancel := context.WithCancel(context.Background())
-	cancel()
 	for _, c := range cases {
 		out := breaker.VerifWOut{ID: c.ID}
 		for ci, k := range c.Calls {
-			kind, rej, ctxdone, class, code := k[0], k[1] == 1, k[2] == 1, k[3], k[4]
+			kind, rej, class, code := k[0], k[1] == 1, k[3], k[4]
+			ctx, atReturn := breaker.VerifCtx(k[2])
 			derr := verifDerr(class, code)
 			var nopts int64
 			if class == vdSqlCustom {
@@ -119,6 +162,13 @@ func TestVerifC01W(t *testing.T) {
 			dsn := fmt.Sprintf("verif-c01-%d-%d", os.Getpid(), verifDsnSeq)
 			if class == vdSqlConnErr {
 				sc = NewSqlConn("sqlmock", dsn+"-never-registered", verifSqlOpts(nopts)...)
+			} else if k[2] == breaker.VCCancelAtReturn || k[2] == breaker.VCDeadlineAtReturn {
+				// the context becomes done while the driver executes the statement
+				db, mock, err = sqlmock.NewWithDSN(dsn)
+				if err == nil {
+					sc = NewSqlConnFromDB(sql.OpenDB(verifConnector{drv: db.Driver(), dsn: dsn, after: atReturn}),
+						verifSqlOpts(nopts)...)
+				}
 			} else if (c.ID+ci)%2 == 1 {
 				db, mock, err = sqlmock.NewWithDSN(dsn)
 				if err == nil {
@@ -159,10 +209,6 @@ func TestVerifC01W(t *testing.T) {
 			}
 			p.VerifForce(rej)
 			before := p.Sums()
-			ctx := context.Background()
-			if ctxdone {
-				ctx = cancelled
-			}
 			meth := kind
 			noctx := false
 			switch {
@@ -278,7 +324,7 @@ func TestVerifC01W(t *testing.T) {
 				sk = breaker.VSNil
 			case invoked == 0 && e == breaker.ErrServiceUnavailable:
 				sk = breaker.VSBreakerUnavailable
-			case invoked == 0 && e == context.Canceled:
+			case invoked == 0 && breaker.VerifIsCtxErr(e):
 				sk = breaker.VSCtxErr
 			case wantScan != nil && e == wantScan:
 				sk = breaker.VSSame
